@@ -63,10 +63,18 @@ def layout (e : Entry) (elemSize elemAlign len : Nat) : Layout :=
 def hints (e : Entry) (dyn : Bool) : Hints :=
   if dyn then Hints.custom else if e.isValue then Hints.sized else Hints.array
 
-/-- does the call reach the allocator?  never for a zero-sized `T` (`BumpBox::zst_*`); the collection-based
+/-- for a zero-sized `T`: does the entry point still call the allocator?  `alloc_uninit_slice(_for)` have no
+    `T::IS_ZST` shortcut (they issue `allocate_slice(_for)` with a size-0 / align-of-T layout: the position is padded
+    to the alignment, an unallocated arena gets its first chunk); every other entry point returns a dangling box
+    (`BumpBox::zst_*`, `BumpVec` / `MutBumpVec(Rev)` never allocate for zero-sized elements) -/
+def zstReachesAllocator : Entry → Bool
+  | .uninitSlice | .uninitSliceFor => true
+  | _ => false
+
+/-- does the call reach the allocator?  for a zero-sized `T` only `alloc_uninit_slice(_for)`; the collection-based
     entry points not for an empty source -/
 def allocates (e : Entry) (elemSize len : Nat) : Bool :=
-  e.isText || (elemSize != 0 && (len != 0 || !(e.viaBumpVec || e.viaPrepare)))
+  e.isText || (if elemSize == 0 then e.zstReachesAllocator else (len != 0 || !(e.viaBumpVec || e.viaPrepare)))
 
 /-- a call that RETURNS (block id `blk`, contents = byte pattern `seed`) -/
 def ops (e : Entry) (elemSize elemAlign len seed : Nat) (dyn : Bool) (blk : Nat) : List Op :=
